@@ -54,6 +54,7 @@ def sample_configs():
         "5": cfg_([0, 0, 0], [1, 1, 1], CT.DELETION),
         "36": cfg_([1, 0, 0], [1, 2, 2], CT.RIGHT_FUSION),
         "68": cfg_([0, 1, 0], [1, 0, 0], CT.LEFT_FUSION),
+        "7": cfg_([0, 1, 0], [1, 1, 1], CT.CUSTOM),       # partial deletion of the gene (first region missing)
     }
 
 
@@ -189,6 +190,9 @@ def cn_instances():
         (["1", "5", "36", "68"], ["1", "1", "1"], 2, "5", None, 3, 0.1),
         (["1", "5", "36", "68"], ["5", "5"], 2, "5", None, 3, 0.3),
         (["1", "5", "36", "68"], ["1", "68"], 2, "5", {"36": 0.0, "68": 5.0}, 3, 0.1),
+        (["1", "5", "36", "68"], ["1", "36"], 2, "5", {"68": 0.5}, 3, 0.1),            # a fusion the support table does not list
+        (["1", "5", "36", "68"], ["1", "36"], 2, "5", {"36": 0.05, "68": 0.2}, 3, 0.1),  # support between 1/(2 cn_max) and 1/(2 max copies)
+        (["1", "5", "7"], ["7", "7", "7"], 2, "5", None, 4, 0.3),                     # three copies of a partial-deletion configuration planted
         (["1", "36"], ["1", "1"], 2, None, None, 3, 0.3),
         (["1", "5"], ["1", "5"], 1, "5", None, 4, 0.0),
     ]
@@ -201,12 +205,12 @@ def cn_instances():
         cfgs = {k: Obj(cn=[dict(pp) for pp in v.cn], kind=v.kind, alleles=set(), description="") for k, v in full.items() if k in ("1", "5", "36")}
         out.append(Instance(cfgs, REG, REG, depth(cfgs, ["1", "1"], 0.05, 2, pseudo_extra=extra), 3, prof(gap, default=True), 2, "5", None))
     for _ in range(30 if thorough() else 4):
-        names = ["1"] + rnd.sample(["5", "36", "68"], rnd.randint(1, 3))
+        names = ["1"] + rnd.sample(["5", "36", "68", "7"], rnd.randint(1, 3))
         parts = rnd.choice([2, 2, 1])
         dele = "5" if "5" in names else None
         cfgs = {k: Obj(cn=[dict(pp) for pp in v.cn[:parts]], kind=v.kind, alleles=set(), description="") for k, v in full.items() if k in names}
         planted = [rnd.choice(names) for _ in range(rnd.randint(0, 4))]
-        fs = None if rnd.random() < 0.7 else {c: rnd.choice([0.0, 0.05, 0.2, 3.0]) for c in names if c not in ("1", "5")}
+        fs = None if rnd.random() < 0.7 else {c: rnd.choice([0.0, 0.05, 0.2, 3.0]) for c in names if c not in ("1", "5") and rnd.random() < 0.8}
         unique = REG if rnd.random() < 0.7 else ["e1", "pce"]
         inst = Instance(cfgs, REG, unique, depth(cfgs, planted, 0.5, parts), rnd.choice([3, 4]), prof(rnd.choice([0.0, 0.1, 0.3])), parts, dele, fs)
         out.append(inst)
